@@ -117,7 +117,7 @@ class Step:
         self.ev(s)
 
 
-def check(facts, res, R):
+def check(facts, res, R, maxcount=14):
     fns = [f for f in facts.functions if f["name"] == "lower_bound_indexes" and not f.get("inst") and tbf.body(f) is not None]
     if len(fns) != 1:
         raise AnalysisBroken("TbfUtils::lower_bound_indexes not found")
@@ -151,7 +151,7 @@ def check(facts, res, R):
     # one iteration
     if bad is None:
         for first in range(0, 4):
-            for count in range(1, 15):
+            for count in range(1, maxcount + 1):
                 for answer in range(first, first + count + 1):
                     env = {pfirst: first, plast: first + count, pvalue: 0, cnt: count}
                     st = Step(facts, fn, env, pcomp, answer, first, first + count)
